@@ -43,7 +43,7 @@ CHECK = {
            'each against the same kind of stream driven with plain stdio'),
   'bounds': {
     'quick': 'all histories of depth <= 5 over the full 49-operation alphabet (gcc build); depth <= 4 under ASan+UBSan; print ladder N = 0..300 and 14 larger sizes up to 20000 x 3 variants, byte sweep 5 backends x 2 layouts x 2 write chunkings (gcc and ASan)',
-    'thorough': 'all histories of depth <= 7 over the full 49-operation alphabet (gcc build); depth <= 6 under ASan+UBSan; the same print ladder and byte sweep',
+    'thorough': 'all histories of depth <= 7 over 48 operations (all but the 257-character print_to) and of depth <= 6 over the full 49-operation alphabet (gcc build); depth <= 6 under ASan+UBSan; the same print ladder and byte sweep',
   },
   'assumptions': [
     'glibc stdio is the reference for the twin stream; a disagreement between the twin and the harness\'s own byte-array model is reported as a harness error (exit 2), never as a verdict',
@@ -60,7 +60,8 @@ CHECK = {
       T('ladder-asan', 'asan', 'mode=ladder'),
     ],
     'thorough': [
-      T('d7', 'base', 'depth=7'),
+      T('d7', 'base', 'depth=7', 'bigprint=0'),
+      T('d6-full', 'base', 'depth=6'),
       T('d6-asan', 'asan', 'depth=6'),
       T('ladder', 'base', 'mode=ladder'),
       T('ladder-asan', 'asan', 'mode=ladder'),
